@@ -127,6 +127,7 @@ STRAIGHT = {
     "s10": ["s = 2.0*s + s/q - p*s"],
     "s11": ["s = t + p*s", "s = s*q", "t = 0.0"],
     "s12": ["if (n > 2) then", "  a(n) = a(n-1)*p", "end if", "a(0) = a(0) + a(1)"],
+    "s13": ["a(1) = p*a(1) + a(2) - a(1)/q + 2.0*a(1)"],
     # array notation (preprocess turns it into loops)
     "v1": ["a(:) = a(:) + p*b(:)"],
     "v2": ["a(1:n) = b(1:n)*q - a(1:n)"],
